@@ -60,6 +60,9 @@ impl SegmentSizes {
 
     pub fn on_payload_delivered(&mut self, payload_size: usize) {
         let payload_size = payload_size.min(u16::MAX as usize) as u16;
+        // Whatever sizes the peer uses, never go above what our own link MTU (or a failed
+        // probe) allows.
+        let payload_size = payload_size.min(self.max_ss);
         self.min_ss = self.min_ss.max(payload_size);
         self.max_ss = self.max_ss.max(self.min_ss);
     }
